@@ -10,7 +10,7 @@ import subprocess
 import sys
 
 V = os.path.dirname(os.path.dirname(os.path.abspath(__file__)))
-WT = "/root/scratch/refac_wt"
+WT = os.environ.get("VERIF_REFAC_WT") or "/root/scratch/refac_wt"
 names = sys.argv[1:] or sorted(f[:-5] for f in os.listdir(V + "/refactorings") if f.endswith(".diff"))
 checks = [c["property_id"] for c in json.load(open(V + "/MANIFEST.json"))["checks"]]
 respath = V + "/refactorings/RESULTS.json"
